@@ -346,6 +346,7 @@ class Interp:
         self.loop_specs = {}
         self.frames = []
         _GETATTR_INTERP[0] = self
+        self.auto_inlined = set()
 
     # ---- public
     def func(self, relpath, qual) -> FuncRef:
@@ -1368,7 +1369,11 @@ class Interp:
                 return v
         if fref.key in self.inline or "*" in self.inline:
             return self.run(fref, args, kwargs, selfobj)
-        raise Unsupported(f"call to {fref.key} which has no contract in scope (at {cur().loc})")
+        # a callee of the repository for which the contract declares neither a specification nor an explicit inlining
+        # (typically a helper that a later change of the code started to call): its current body is executed in place and
+        # recorded as part of the verified text of this unit, instead of giving up with a checker error
+        self.auto_inlined.add(fref.key)
+        return self.run(fref, args, kwargs, selfobj)
 
 
 class _MaskedSource:
